@@ -63,6 +63,7 @@ class Harness(object):
         self.defaults = {}
         self.vals = {}
         self.ep_result = 'response'
+        self.persistent_types = {}
 
     # ---- object tagging -------------------------------------------------
     def tag(self, obj):
@@ -217,11 +218,12 @@ class Harness(object):
             if f.get('script'):
                 self.scripts[fid] = f['script']
         tname = m.get('type', 'T%d' % i)
-        base = types.get(tname)
+        tkey = (tname, bool(m.get('unique', True)), bool(m.get('reorderable', True)))
+        base = types.get(tkey)
         if base is None:
             exec('class %s(Middleware):\n    unique = %r\n    reorderable = %r\n'
                  % (tname, bool(m.get('unique', True)), bool(m.get('reorderable', True))), dict(Middleware=Middleware), ns)
-            base = types[tname] = ns[tname]
+            base = types[tkey] = ns[tname]
         ns['Base'] = base
         src = 'class Inst(Base):\n' + (''.join(lines) or '    pass\n')
         exec(src, ns)
@@ -265,7 +267,7 @@ class Harness(object):
                 out.append(Route('/<%s*>' % name, nb))
         return out
 
-    def build(self, cfg, error_handler=None, construct='list', decoys=None):
+    def build(self, cfg, error_handler=None, construct='list', decoys=None, reuse_types=False):
         """Returns the serving application.  Raises whatever clastic raises."""
         from clastic import Application, Route, SubApplication
         self.scripts.clear()
@@ -273,7 +275,9 @@ class Harness(object):
         self.callstyle.clear()
         self.defaults.clear()
         self.vals.clear()
-        types = {}
+        # reuse_types: middleware classes persist across builds of this harness, so that a valid instance of a
+        # class can be followed by a malformed instance of the very same class (history dependence)
+        types = self.persistent_types if reuse_types else {}
         insts = []
         for i, m in enumerate(cfg['mws']):
             if m.get('same_as') is not None:
